@@ -221,6 +221,8 @@ class RoomManager(BaseManager):
         # room should always have an owner
         room.private = bool(message.owner)
 
+        # The response lists all users in the room: replace the current list
+        room.users = []
         for idx, name in enumerate(message.users):
             user = self._user_manager.get_user_object(name)
             user.status = UserStatus(message.users_status[idx])
